@@ -1,5 +1,6 @@
 import Netconan.Model.Lines
 import Netconan.Model.Decoders
+import Netconan.Proofs.WordsNoSurvival
 import Netconan.Model.Md5
 import Netconan.Pinned.Patterns
 import Netconan.Generated.Patterns
@@ -125,6 +126,18 @@ def faCmd (env : FaEnv) (objs : List (String × FaObj)) (ws : List String) : Opt
       match anonymizeLines o.p o.lk lines with
       | .ok (outs, lk, logs) => some (s!"ok {showCps outs.flatten} {showLogs logs}", upd id { o with lk := lk })
       | .error e => some (s!"err {e.name}", objs)
+  | ["fawordok", id] =>
+    -- the hypotheses of the no-survival theorem, per (lower-cased) listed word in alternation order
+    match find id with
+    | none => some ("bad-op", objs)
+    | some o => match o.p.words with
+      | none => some ("ok -", objs)
+      | some t =>
+        let verdict := fun (w : List Char) =>
+          let sets := NoSurvival.setsOf o.p.wenv w
+          NoSurvival.wordOKb Generated.wordLen sets && NoSurvival.spaceFree Pinned.Patterns.spaceSet sets
+        some ("ok " ++ (if t.words.isEmpty then "-" else
+          ";".intercalate (t.words.map (fun w => showCps w ++ ":" ++ (if verdict w then "1" else "0")))), objs)
   | ["falookup", id] =>
     match find id with
     | none => some ("bad-op", objs)
